@@ -59,7 +59,7 @@ def gen_nz(rnd):
             k = rnd.randint(0, M); q = k / M
             pts.add(rnd.choice([q, math.nextafter(q, 2.0), math.nextafter(q, -1.0), round(q, 2), round(q, 3)]))
         samples = sorted(x for x in pts if 0.0 <= x <= 1.0) or [1.0]
-    return dict(kind=kind, n=n, edges=edges, samples=samples, seed=rnd.random(),
+    return dict(kind=kind, n=n, edges=edges, samples=samples, seed=rnd.random(), form=rnd.choice(['asis', 'asis', 'shuffled', 'dups', 'tuple', 'array', 'iter', 'ints']),
                 how=rnd.choice(['graph', 'graph', 'fixed', 'limit1', 'limit2']))
 
 
@@ -131,8 +131,22 @@ def run_nz(spec):
     from epydemic import FixedNetwork
     how = spec.get('how', 'graph')
     src = g if how == 'graph' else FixedNetwork(g) if how == 'fixed' else FixedNetwork(g, limit=1 if how == 'limit1' else 2)
-    e = E(src, samples=spec['samples'])
-    pts = list(e._samplepoints)
+    import numpy as _np
+    given = spec['samples']
+    if isinstance(given, list):
+        # the same set of points handed over in another form: the constructor promises to sort and to drop repeats
+        f = spec.get('form', 'asis'); r2 = random.Random(spec['seed'] + 7)
+        if f in ('shuffled', 'dups'):
+            given = list(given) + ([r2.choice(given) for _ in range(2)] if f == 'dups' else [])
+            r2.shuffle(given)
+        elif f == 'tuple': given = tuple(given)
+        elif f == 'array': given = _np.array(given)
+        elif f == 'iter': given = iter(list(given))
+        elif f == 'ints': given = [int(x) if float(x).is_integer() else x for x in given]
+    e = E(src, samples=given)
+    # the requested points, computed here and not read back from the object
+    pts = ([float(x) for x in _np.linspace(0.0, 1.0, num=spec['samples'], endpoint=True)] if isinstance(spec['samples'], int)
+           else sorted({float(x) for x in spec['samples']}))
     res = None
     try:
         if how == 'limit2':
